@@ -87,6 +87,8 @@ class FnInfo:
         self.needs_eigh = False
         self.inputs = []          # methods: canonical attribute names read
         self.outputs = []         # methods: canonical attribute names written
+        self.read_order = {}      # methods: attribute -> ('own',) | ('ids_of', attr)
+        self.write_binding = []   # methods: per update_data call: ('positional',) | ('ids_of', attr)
         self.text = ''
 
 
@@ -179,6 +181,25 @@ class Translator:
             op = ops[type(node.op)]
             a, b = self.expr(node.left, env), self.expr(node.right, env)
             return self.arith(node, op, a, b)
+        # self.elemental_data['name'].filter_with_ids(ids).data : rows of 'name' in the order of ids
+        if isinstance(node, ast.Attribute) and node.attr == 'data' and isinstance(node.value, ast.Call) \
+                and isinstance(node.value.func, ast.Attribute) and node.value.func.attr == 'filter_with_ids' \
+                and isinstance(node.value.func.value, ast.Subscript) and \
+                ast.dump(node.value.func.value.value) == ast.dump(ast.parse('self.elemental_data').body[0].value) \
+                and isinstance(node.value.func.value.slice, ast.Constant) and \
+                isinstance(node.value.func.value.slice.value, str) and len(node.value.args) == 1 and \
+                not node.value.keywords and isinstance(node.value.args[0], ast.Name):
+            idv = env.get(node.value.args[0].id)
+            if idv is None or idv.kind != 'ids':
+                self.err(node, 'filter_with_ids argument is not an id list bound by get_attribute_ids')
+            nm = self.aliases.get(node.value.func.value.slice.value, node.value.func.value.slice.value)
+            if nm not in self.info.inputs:
+                self.info.inputs.append(nm)
+            order = idv.origin if idv.origin != ('ids_of', nm) else ('own',)
+            self.info.read_order.setdefault(nm, order)
+            if self.info.read_order[nm] != order:
+                self.err(node, 'attribute read in two different row orders')
+            return Val('in_' + nm, 'v', 'fresh')
         if isinstance(node, ast.Subscript):
             return self.subscript(node, env)
         if isinstance(node, ast.Call):
@@ -363,7 +384,17 @@ class Translator:
             nm = self.aliases.get(node.args[0].value, node.args[0].value)
             if nm not in self.info.inputs:
                 self.info.inputs.append(nm)
+            self.info.read_order.setdefault(nm, ('own',))
+            if self.info.read_order[nm] != ('own',):
+                self.err(node, 'attribute read in two different row orders')
             return Val('in_' + nm, 'v', ('param', nm), buf='attr:' + nm)
+        # self.elemental_data.get_attribute_ids('name'): the ids the rows of that attribute belong to
+        if isinstance(f, ast.Attribute) and f.attr == 'get_attribute_ids' and \
+                ast.dump(f.value) == ast.dump(ast.parse('self.elemental_data').body[0].value):
+            if len(node.args) != 1 or node.keywords or not isinstance(node.args[0], ast.Constant):
+                self.err(node, 'get_attribute_ids form')
+            nm = self.aliases.get(node.args[0].value, node.args[0].value)
+            return Val('', 'ids', ('ids_of', nm))
         # another translated function (functions.<f> or bare name)
         fname = f.id if isinstance(f, ast.Name) else (
             f.attr if isinstance(f, ast.Attribute) and isinstance(f.value, ast.Name)
@@ -492,6 +523,9 @@ class Translator:
     def bind(self, lines, env, name, val):
         """emit `let name := val in` and update env"""
         cn = cname(name)
+        if val.kind == 'ids':
+            env[name] = Val('', 'ids', val.origin)
+            return
         lines.append(f'  let {cn} := {val.text} in')
         if val.buf is None:
             self.nbuf += 1
@@ -586,11 +620,17 @@ class Translator:
                 c = st.value
                 if ast.dump(c.func.value) != ast.dump(ast.parse('self.elemental_data').body[0].value) or \
                         len(c.args) != 2 or \
-                        ast.dump(c.args[0]) != ast.dump(ast.parse('self.elements.ids').body[0].value) or \
                         not isinstance(c.args[1], ast.Dict) or \
                         [(k.arg, getattr(k.value, 'value', None)) for k in c.keywords] != \
                         [('allow_overwrite', True)]:
                     self.err(st, 'update_data form')
+                if ast.dump(c.args[0]) == ast.dump(ast.parse('self.elements.ids').body[0].value):
+                    self.info.write_binding.append(('positional',))
+                elif isinstance(c.args[0], ast.Name) and c.args[0].id in env and \
+                        env[c.args[0].id].kind == 'ids':
+                    self.info.write_binding.append(env[c.args[0].id].origin)
+                else:
+                    self.err(st, 'update_data ids argument')
                 for k, v in zip(c.args[1].keys, c.args[1].values):
                     if not isinstance(k, ast.Constant) or not isinstance(k.value, str):
                         self.err(st, 'update_data key')
@@ -785,6 +825,20 @@ def translate(repo):
     return tr, consumed
 
 
+def binding_by_id(info):
+    """every update_data of the method is bound to ids_of A, A is read in its own
+    order and every other attribute read is filtered with the ids of A"""
+    if not info.write_binding or any(b[0] != 'ids_of' for b in info.write_binding):
+        return False
+    anchors = {b[1] for b in info.write_binding}
+    if len(anchors) != 1:
+        return False
+    a = anchors.pop()
+    if info.read_order.get(a) != ('own',):
+        return False
+    return all(o == ('ids_of', a) for n, o in info.read_order.items() if n != a)
+
+
 def emit(tr):
     out = ['(* GENERATED by translate/c17_tensor.py from femio/functions.py and',
            '   femio/signal_processor.py of the tree under test -- do not edit. *)',
@@ -798,6 +852,14 @@ def emit(tr):
     for n in METHODS:
         out.append(f'Definition {n}_reads : list string := {sl(tr.fn[n].inputs)}.')
         out.append(f'Definition {n}_writes : list string := {sl(tr.fn[n].outputs)}.')
+    out.append('')
+    out.append('(* row binding of the two methods: the rows a method writes are computed, row by')
+    out.append('   row, from the rows of the attributes it reads.  by_id = the written rows are')
+    out.append('   attached to the ids of the attribute they were computed from (and every other')
+    out.append('   attribute is read in the order of those ids); otherwise they are attached')
+    out.append('   positionally to self.elements.ids *)')
+    for n in METHODS:
+        out.append(f'Definition {n}_bound_by_id : bool := {str(binding_by_id(tr.fn[n])).lower()}.')
     out.append('')
     out.append('(* conservative alias summary: caller-owned arrays (function:parameter, or')
     out.append('   method:mesh attribute) that some statement may write in place *)')
